@@ -26,6 +26,8 @@ def check_cleanup_guards(ctx: Ctx) -> None:
             if n.kind != "stmt" or not isinstance(n.ast, (ast.Assign, ast.AugAssign)):
                 continue
             tg = n.ast.targets[0] if isinstance(n.ast, ast.Assign) else n.ast.target
+            if isinstance(tg, ast.Subscript) and isinstance(tg.value, ast.Attribute) and tg.value.attr == "children":
+                tg = tg.value  # X.children[a:b] = ... re-links children of X as well (a splice)
             if not isinstance(tg, ast.Attribute):
                 continue
             n_st += 1
@@ -153,6 +155,20 @@ def check_spacing_arms(ctx: Ctx) -> None:
             for k, v in first.items():
                 stores.setdefault(k, set()).update(v)
         outcomes[mode] = stores
+    # a str-mixin enum is compared by value: the mode may arrive as a plain string (config file -> setattr on the options ->
+    # renderer), for which `mode is ListSpacing.loose` is False although `mode == ListSpacing.loose` holds
+    str_mixin = any(norm(b).split(".")[-1] in ("str", "StrEnum") for b in enum.node.bases)
+    if str_mixin:
+        from .common import exclusive_helpers
+        for f in [lm] + [repo.functions[q] for q in sorted(exclusive_helpers(prog, lm)) if q in repo.functions]:
+            if isinstance(f.node, ast.Lambda):
+                continue
+            for x in walk_no_nested(f.node):
+                if isinstance(x, ast.Compare) and len(x.ops) == 1 and isinstance(x.ops[0], (ast.Is, ast.IsNot)) \
+                        and (member_of(x.left) or member_of(x.comparators[0])):
+                    ctx.ob("R-DECISION-spacing", f"{f.qual} :: {norm(x)} compares by value", False,
+                           f"{enum.name} mixes in str and the mode can reach the renderer as a plain string (config file): an identity test "
+                           "never matches it, so the configured mode silently behaves as another one; compare with ==", where(f, x))
     # the attribute decided by the mode: the one whose stored value differs between modes
     keys = set().union(*[set(v) for v in outcomes.values()]) if outcomes else set()
     decided = [k for k in sorted(keys) if len({frozenset(outcomes[m].get(k, ())) for m in members}) > 1]
